@@ -451,6 +451,16 @@ class Gen:
                 args.append(lv)
             elif self.o.byval_args:
                 e = self.expr(sc, pt, min(depth, 1))
+                if lvs and r.random() < 0.35:
+                    # the usual force-by-value idioms: x + 0, x * 1, "" + s$
+                    lv = r.choice(lvs)
+                    if pt == '$':
+                        e = ('bin', '+', lv, ('lit', '$', '')) if r.random() < 0.5 else ('bin', '+', ('lit', '$', ''), lv)
+                    elif r.random() < 0.5:
+                        e = ('bin', '+', lv, ('lit', pt, 0 if pt in '%&' else 0.0))
+                    else:
+                        e = ('bin', '*', lv, ('lit', pt, 1 if pt in '%&' else 1.0))
+                    self.features.add('byval-identity')
                 if e[0] in ('var', 'elem', 'fld'):
                     e = ('par', e)
                     self.features.add('byval-paren')
@@ -933,6 +943,24 @@ class Gen:
         elif o.exit_stmts and r.random() < 0.2:
             nd = max([i for i, x in enumerate(body) if x[0] in ('dim', 'const')] + [-1]) + 1
             body.insert(r.randint(nd, len(body)), ['ifline', self.cond(sc), [['exitsub']], None])
+        for pn_, pt_, _a, _s in params:
+            if isinstance(pt_, tuple):
+                # several accesses to (also non-first) fields of a by-reference record in one activation
+                base = ('var', pn_, pt_)
+                flds = []
+                for ft in '%&!#$':
+                    flds += self.fields_of(base, pt_[1], ft)
+                r.shuffle(flds)
+                pos = max([i for i, x in enumerate(body) if x[0] in ('dim', 'const')] + [-1]) + 1
+                extra = []
+                for f_ in flds[:3]:
+                    extra.append(['let', f_, self.lit(f_[3]), False])
+                if kind == 'sub':
+                    extra.append(['print', sum(([['e', f_], ';'] for f_ in flds[:3]), [])[:-1]])
+                else:
+                    for f_ in flds[:2]:
+                        extra.append(['let', f_, f_, False])
+                body[pos:pos] = extra
         self.gosubs = saved
         self.in_function = False
         self.procs.append(proc)
